@@ -67,6 +67,12 @@ CHECKS = {
         text='Every arc of the grids is constructed by the real Arc and compared with the independent endpoint-to-centre conversion: radii rule (exactly unchanged / minimally enlarged), end points, centre, every sampled point on the stored ellipse, monotone eccentric angle in the sweep direction, span vs large_arc, derivative orders 1..5 against the analytic derivative and finite differences of point, approximations start/end/contiguity. All 24 region classes (Lambda region x flags x axis-aligned/rotated) must be hit.',
         note='Trusted: mc/refgeom.arc_center_params (math only). Grid only.',
         design='4/C04'),
+    'C09': dict(
+        level='exploration',
+        technique='bounded-exhaustive enumeration of segment library x rotations x scales x all (t0,t1) pairs and split points of a t alphabet x u grid, and of all paths (words over 4 segment kinds, open / closed by line / closed by curve) x all ordered (T0,T1) pairs incl. exact joints and wrap-around, against the documented parameter maps',
+        text='The maps are affine reparameterisations, so each is checked pointwise on a u grid with tolerance 1e-9*size (1e-7 where an Arc is re-created from end points). Path crops are checked for end points, joined pieces, no zero-length pieces, and length against length(T0,T1), for every ordered pair of the T alphabet (joints included).',
+        note='Trusted: point() (C03/C04) and length() (C06). Grid only.',
+        design='4/C09'),
 }
 
 NOT_YET = {}
